@@ -79,12 +79,15 @@ func c12Flat(c *Case) {
 		return
 	}
 	d := c12Doc(c.GShared("doc", int64(c.Index/10)))
-	ctx := d.Nodes[g.Intn(len(d.Nodes))]
-	if g.Chance(0.3) {
+	ctx := pickCtx(g, d)
+	if g.Chance(0.2) {
 		ctx = d.Root
 	}
 	env := &xgen.Env{Doc: d, Ctx: ctx, Names: namesIn(d)}
 	p := flatPathWithPreds(g, env)
+	if c.expensive(p, d) {
+		return
+	}
 	src := xref.Render(p)
 	want, ok, why := refNodeSet(p, xref.NewCtx(ctx))
 	if !ok {
@@ -192,6 +195,9 @@ func c12Protocol(c *Case) {
 	}
 	env := &xgen.Env{Doc: d, Ctx: ctx, Names: namesIn(d)}
 	e := anyNodeSetExpr(g, env)
+	if c.expensive(e, d) {
+		return
+	}
 	src := xref.Render(e)
 	det := func() map[string]interface{} { return docDetail(d, ctx) }
 	ce := c.compile(src, det)
@@ -199,6 +205,7 @@ func c12Protocol(c *Case) {
 		return
 	}
 	c.recordShape(queryShape(ce))
+	c.Logf("expr %s ctx %s doc nodes %d", src, ctx.Label(), len(d.Nodes))
 	bad := func(kind string, extra map[string]interface{}) {
 		dd := det()
 		dd["expr"] = src
